@@ -882,6 +882,7 @@ func gen(a Args, out *Out) {
 	slicingCases(a, out, rng.Fork())
 	familyCases(a, out, rng.Fork())
 	frameCases(a, out, rng.Fork())
+	structuredKeyCases(a, out, rng.Fork())
 	finishSweeps()
 	duplexCases(a, out, rng.Fork())
 }
